@@ -81,6 +81,97 @@ def call_real(th, pt, op):
         return 'EXC:' + type(e).__name__
 
 
+def config_stream(rep, rng, quick):
+    import json
+    import os
+    import subprocess
+    import tempfile
+    import gepard as g
+    params = {'ns': 0.15, 'al0s': 1.1, 'alps': 0.15, 'ms2': 1.0, 'secs': 0.2, 'al0g': 1.2, 'alpg': 0.15, 'mg2': 0.7,
+              'secg': -0.5, 'this': 0.0, 'thig': 0.0}
+    configs = [dict(p=0), dict(p=1, scheme='csbar'), dict(p=0, Q02=2.0), dict(p=1, scheme='msbar')] if not quick else \
+        [dict(p=0), dict(p=1, scheme='csbar'), dict(p=0, Q02=2.0)]
+    bases = ['PWNormGPD', 'MellinBarnesCFF', 'MellinBarnesTFF', 'DIS', 'BMK']
+    Q2s = [rng.choice([4.0, 8.5, 12.0, 25.0]) for _ in range(2 if quick else 5)]
+    jobs = []
+    for q in Q2s:
+        xB = rng.uniform(0.001, 0.05)
+        for ci, kw in enumerate(configs):
+            spec = dict(bases=bases, kwargs=kw, params=params)
+            jobs.append(dict(theory=spec, cfg=ci, op='DISF2', point=dict(xB=xB, Q2=q)))
+            jobs.append(dict(theory=spec, cfg=ci, op='predict', observable='ImH', point=dict(xB=xB, Q2=q, t=-0.2)))
+            jobs.append(dict(theory=spec, cfg=ci, op='predict', observable='XGAMMA',
+                             point=dict(W=82., Q2=q, t=-0.2, process='gammastarp2rho0p')))
+    # main process: one SHARED theory object per configuration, jobs in the listed order
+    import ref_eval
+    shared = {}
+    main_res = []
+    for j in jobs:
+        th = shared.get(j['cfg'])
+        if th is None:
+            th = shared[j['cfg']] = ref_eval.build(j['theory'])
+        pt = g.DataPoint(**j['point'])
+        try:
+            r = th.predict(pt, observable=j['observable']) if j['op'] == 'predict' else getattr(th, j['op'])(pt)
+            main_res.append(ref_eval.canon(r))
+        except Exception as e:
+            main_res.append('EXC:' + type(e).__name__)
+    order = list(range(len(jobs)))[::-1]
+    fd, path = tempfile.mkstemp(suffix='.json', dir=os.path.join(common.VERIF, 'replays'))
+    os.close(fd)
+    try:
+        json.dump([jobs[i] for i in order], open(path, 'w'))
+        rc, out, err = common.sh(['/venv/bin/python', os.path.join(common.VERIF, 'harness', 'ref_eval.py'), path], timeout=1200)
+    finally:
+        os.remove(path)
+    if rc != 0:
+        raise RuntimeError('reference interpreter failed: ' + err[-500:])
+    ref = json.loads(out.strip().splitlines()[-1])
+    ref_by_job = {i: r for i, r in zip(order, ref)}
+    for i, (j, r) in enumerate(zip(jobs, main_res)):
+        rep.case('config', (i, j['cfg'], j['op'], j.get('observable'), j['point'].get('Q2')),
+                 sample=dict(config=j['theory']['kwargs'], op=j['op'], observable=j.get('observable'), Q2=j['point'].get('Q2')) if i < 3 else None)
+        if r != ref_by_job[i]:
+            rep.violation('config/%s/%s' % (j['op'], j.get('observable', '')),
+                          '%s%s of theory %s %s at Q2=%s returns %s in a session that also evaluated other configurations, '
+                          'but %s on fresh objects in a fresh interpreter' % (j['op'], '(%s)' % j.get('observable') if j.get('observable') else '',
+                                                                             bases, j['theory']['kwargs'], j['point'].get('Q2'), r[:40], ref_by_job[i][:40]),
+                          dict(job=j, shared_session=r, fresh_interpreter=ref_by_job[i]))
+
+
+def ftn_stream(rep, rng, quick):
+    import gepard as g
+    from gepard import fits
+    cand = []
+    for k in sorted(g.dset):
+        for p in g.dset[k]:
+            if p.get('process') in ('ep2epgamma', 'en2engamma') and 'FTn' in p and 't' in p:
+                cand.append(p)
+    zero = [p for p in cand if p['FTn'] == 0]
+    pool = (rng.sample(zero, min(len(zero), 6 if quick else 60)) + rng.sample(cand, min(len(cand), 6 if quick else 60)))
+    ths = [fits.th_KM09a, fits.th_KM15] if not quick else [fits.th_KM09a]
+    for th in ths:
+        for p in pool:
+            before = dict(p)
+            for op in ('XSintphi', 'predict'):
+                try:
+                    if op == 'predict':
+                        th.predict(p)
+                    else:
+                        th.XSintphi(p)
+                    out = 'ok'
+                except Exception as e:
+                    out = 'EXC:' + type(e).__name__
+                rep.case('ftn', (id(p), op, th.name), sample=dict(dataset=p.get('id'), FTn=p.get('FTn'), op=op, outcome=out) if p is pool[0] else None)
+                if dict(p) != before:
+                    changed = {k: (before.get(k), p.get(k)) for k in set(before) | set(p) if before.get(k, None) is not p.get(k, None) and before.get(k) != p.get(k)}
+                    rep.violation('point/%s/FTn=%s' % (op, before.get('FTn')),
+                                  'bundled point of dataset %s (FTn=%r, observable %s) changed by %s on theory %s: %s' % (
+                                      p.get('id'), before.get('FTn'), p.get('observable'), op, th.name, changed),
+                                  dict(dataset=p.get('id'), FTn=before.get('FTn'), op=op, changed=str(changed)))
+                    p.clear(); p.update(before)       # repair the shared point for the rest of the run
+
+
 def run(rep):
     import gepard as g
     from props.C17 import pt_fingerprint
@@ -226,6 +317,12 @@ def run(rep):
                               'constructed theory and fresh point copy returns %s' % (opdesc, H['theory'], i, res[:80], sp[:80]),
                               dict(base, shared=res, fresh=sp))
                 break
+    # ---- configuration stream: differently configured theories of the SAME classes evaluated at common
+    # scales in one session (per-theory caches keyed by Q2 only), against a fresh interpreter that evaluates
+    # every job on fresh objects in the reverse order ----
+    config_stream(rep, rng, quick)
+    # ---- points carrying FTn = 0 / unusual harmonic values through XSintphi and friends ----
+    ftn_stream(rep, rng, quick)
     # bundled datasets unchanged
     for k in g.dset:
         now = [pt_fingerprint(p) for p in g.dset[k]]
